@@ -201,4 +201,166 @@ theorem C07_assembled_is_executed_pass (σ : Lin.Net ℝ) (fuel : Nat) (obs : Li
           codeMatrixOf (obOf rows outsF) (Equiv.refl _) i j = codeMatrix r.rows i.val (j.val + 1) :=
   codeMatrixOf_obOf_eq_codeMatrix σ fuel obs r hp
 
+/-! ### the OUTPUT side (`y_sign()` on the way out) -/
+
+/-- `y_sign()` of the description whose y axis points the other way (same sense of angles) is the opposite one -/
+theorem C07_y_sign_of_mirrored_axes (cs : CS) (lh : Bool) :
+    (Input.ySign (flipY cs) lh : ℝ) = -(Input.ySign cs lh) := by
+  cases cs <;> cases lh <;>
+    simp [Input.ySign, Input.consistent, Input.leftHandedCoords, Input.CS.ord, flipY, ofNat_real]
+
+/-- **printed results transform as the re-expression prescribes — the consistent fields.**  Two descriptions of one
+    survey that differ in the direction of the y axis only (`y_sign() = s` and `−s`, `s² = 1`): after
+    `remove_inconsistency()` the program holds the SAME internal system (`C07_remove_inconsistency`,
+    `C07_xnorth_mirrored` (2)), hence the same approximate `x, y`, corrections `dx, dy`, orientation and correction.
+    The adjustment XML then gives: the same adjusted `x`; adjusted `y` with the opposite sign; and for an internal
+    orientation in `[0, 400)` gon with `y_sign() = +1` the value itself, with `y_sign() = −1` the orientation in the
+    other sense (`400 − z`, and `0` for `0`): in both descriptions a value in `[0, 400]`. -/
+theorem C07_output_y_and_orientation (s x y dx dy : ℝ) (o : ℝ) (ho : 0 ≤ o) (ho' : o < 400) :
+    Input.outAdjX x dx = x + dx / 1000 ∧
+    Input.outAdjY (-s) y dy = -(Input.outAdjY s y dy) ∧
+    Input.outOriApprox 1 o = o ∧
+    Input.outOriApprox (-1) o = (if o = 0 then 0 else 400 - o) := by
+  refine ⟨?_, ?_, ?_, ?_⟩
+  · simp [Input.outAdjX, ofNat_real]
+  · simp [Input.outAdjY]
+  · unfold Input.outOriApprox Input.norm400
+    simp only [ofNat_real, one_mul]
+    rw [if_neg (not_lt.2 ho), if_neg (by push_cast; linarith)]
+  · unfold Input.outOriApprox Input.norm400
+    simp only [ofNat_real, neg_one_mul]
+    by_cases h0 : o = 0
+    · subst h0; simp
+    · have hpos : 0 < o := lt_of_le_of_ne ho (Ne.symm h0)
+      rw [if_pos (by linarith : -o < 0), if_neg h0, if_neg (by push_cast; linarith)]
+      push_cast; ring
+
+/-- **NEG (known finding C07-F3): `<cov-mat>` and ellipse `<alpha>` are NOT transformed.**  As coded, both are written
+    from the internal system whatever `y_sign()` is.  For the description with the y axis the other way the prescribed
+    values are the covariance `−c_xy` (`C07_cofactor_transport`: `q'_ij = t_i t_j q_ij`) and the bearing `π − α`
+    (`C07_ellipse_transport`); the writer gives `c_xy` and `α`: e.g. `m0 = 1`, `q_xy = 1` is printed as `1` for both
+    descriptions, and a bearing of 0.5 rad as 0.5 rad. -/
+theorem C07_output_cov_alpha_not_transformed :
+    (∀ s m0 q : ℝ, Input.outCov (-s) m0 q = Input.outCov s m0 q) ∧
+    (∀ s a : ℝ, Input.outAlpha (-s) a = Input.outAlpha s a) ∧
+    Input.outCov (-1 : ℝ) 1 1 ≠ -(Input.outCov (1 : ℝ) 1 1) ∧
+    Input.outAlpha (-1 : ℝ) (1 / 2) ≠ Real.pi - Input.outAlpha (1 : ℝ) (1 / 2) := by
+  refine ⟨fun _ _ _ => rfl, fun _ _ => rfl, ?_, ?_⟩
+  · simp only [Input.outCov]; norm_num
+  · simp only [Input.outAlpha]
+    have := Real.two_le_pi
+    intro h; linarith
+
+/-! ### renaming the points, lifted to the solution -/
+
+/-- **rename, assembled.**  Relabel the identity of every unknown by ANY injective map `f` (renaming the points by an
+    order-preserving or any other injection induces one) in a whole pass processed in any order `σ`: the numbering table
+    is the relabelled table (`mapKeys f`: the index of `f u` is the index of `u`), the sparse rows are IDENTICAL — the
+    numbering of the unknowns follows the order of the observations, not the order of the point map — hence the same
+    design matrix and the same least-squares solution, residuals, Φ and regularisation subset; no permutation arises
+    in the system itself.  (What does follow the `PointID` order — the order of the output and of the list `min_x_` —
+    is a permutation: `C07_permutation_solution`, `C07_pointid_total_order`.) -/
+theorem C07_rename_assembled {m : Nat} (f : Unk → Unk) (hf : Function.Injective f) (obs : Fin m → Lin.Ob ℝ)
+    (σ : Equiv.Perm (Fin m)) (b : Fin m → ℝ) (P : Matrix (Fin m) (Fin m) ℝ) (S : Finset (Fin (finalState obs σ).maxn))
+    (x : Fin (finalState obs σ).maxn → ℝ) (v : Fin m → ℝ) (rtr : ℝ)
+    (h : IsLSSolution (codeMatrixOf obs σ) b P S x v rtr) :
+    finalState (fun i => renOb f (obs i)) σ = (finalState obs σ).mapKeys f ∧
+    rowsOf (fun i => renOb f (obs i)) σ = rowsOf obs σ ∧
+    ∃ e : Fin (finalState (fun i => renOb f (obs i)) σ).maxn ≃ Fin (finalState obs σ).maxn, (∀ j, (e j).val = j.val) ∧
+      codeMatrixOf (fun i => renOb f (obs i)) σ = (codeMatrixOf obs σ).submatrix id e ∧
+      IsLSSolution (codeMatrixOf (fun i => renOb f (obs i)) σ) b P (S.map e.symm.toEmbedding) (x ∘ e) v rtr := by
+  obtain ⟨h1, h2⟩ := finalState_rename f hf obs σ
+  have hn : (finalState (fun i => renOb f (obs i)) σ).maxn = (finalState obs σ).maxn := by rw [h1]; rfl
+  let e : Fin (finalState (fun i => renOb f (obs i)) σ).maxn ≃ Fin (finalState obs σ).maxn := finCongr hn
+  have hA : codeMatrixOf (fun i => renOb f (obs i)) σ = (codeMatrixOf obs σ).submatrix id e := by
+    funext i j
+    show rowCoef ((rowsOf (fun i => renOb f (obs i)) σ).getD i []) (j.1 + 1) = rowCoef ((rowsOf obs σ).getD i []) ((e j).1 + 1)
+    rw [h2]; rfl
+  refine ⟨h1, h2, e, fun _ => rfl, hA, ?_⟩
+  rw [hA]
+  exact h.perm (Equiv.refl _) e
+
+/-! ### non-vacuity -/
+
+/-- every hypothesis of `C07_mirror_of_pass` together, over ℝ: C05's example network, the pass over `C06PL.lowObs` (an
+    exact direction of stand-point 0 from point 7 to point 8, then the 5 m distance) returns for some fuel, the pass
+    over the MIRRORED observations in the MIRRORED network returns too, both rows are regular, the angular right-hand
+    side is 0 (not `+200 gon`), and the zero vector is a least-squares solution of the pass (unit weights, `S = ∅`) -/
+example : ∃ (fuel fuel' : Nat) (r r' : PassOut ℝ),
+    passFrom exNet fuel C06PL.lowObs IdxState.init = .ok r ∧
+    passFrom (mirLin exNet) fuel' (C06PL.lowObs.map mirNObs) IdxState.init = .ok r' ∧
+    (∀ ob ∈ C06PL.lowObs, Regular ob.kind (exNet.view ob)) ∧
+    (∀ i : Fin C06PL.lowObs.length, (toRK C06PL.lowObs[i].kind).angular = true → r.rhs.getD i.val 0 ≠ HALF) ∧
+    IsLSSolution (passMatrix r C06PL.lowObs.length) (fun i : Fin C06PL.lowObs.length => r.rhs.getD i.val 0)
+      (1 : Matrix _ _ ℝ) (∅ : Finset (Fin r.idx.maxn)) 0 0 0 := by
+  have hc := ex_not_cut
+  have hc0 : ¬ hdist (exNet.view ⟨.direction, 0, 7, 8, 0, brg 3 4 - 2 * Real.pi⟩) < CUT := hc
+  obtain ⟨fuel, out, hd⟩ := direction_terminates (exNet.view ⟨.direction, 0, 7, 8, 0, brg 3 4 - 2 * Real.pi⟩) hc0
+  have hc1 : ¬ hdist (mirView .direction (exNet.view ⟨.direction, 0, 7, 8, 0, brg 3 4 - 2 * Real.pi⟩)) < CUT := by
+    rw [show hdist (mirView .direction (exNet.view ⟨.direction, 0, 7, 8, 0, brg 3 4 - 2 * Real.pi⟩))
+      = hdist (flipObs (exNet.view ⟨.direction, 0, 7, 8, 0, brg 3 4 - 2 * Real.pi⟩)) from rfl, hdist_flip]
+    exact hc0
+  obtain ⟨fuel', out', hd'⟩ := direction_terminates _ hc1
+  have hc2 : ¬ hdist (mirView .distance (exNet.view ⟨.distance, 0, 7, 8, 0, 5⟩)) < CUT := by
+    rw [show hdist (mirView .distance (exNet.view ⟨.distance, 0, 7, 8, 0, 5⟩))
+      = hdist (flipObs (exNet.view ⟨.distance, 0, 7, 8, 0, 5⟩)) from rfl, hdist_flip]
+    exact hc
+  have e : C06PL.lowObs = [⟨.direction, 0, 7, 8, 0, brg 3 4 - 2 * Real.pi⟩, ⟨.distance, 0, 7, 8, 0, 5⟩] := rfl
+  have hp : ∃ r, passFrom exNet fuel C06PL.lowObs IdxState.init = .ok r := by
+    rw [e]
+    simp only [passFrom, Kind.lin, hd, distance_eq _ _ ex_not_cut]
+    exact ⟨_, rfl⟩
+  have hp' : ∃ r', passFrom (mirLin exNet) fuel' (C06PL.lowObs.map mirNObs) IdxState.init = .ok r' := by
+    rw [e]
+    simp only [List.map_cons, List.map_nil, passFrom, view_mir]
+    simp only [show (mirNObs ⟨.direction, 0, 7, 8, 0, brg 3 4 - 2 * Real.pi⟩).kind = Kind.direction from rfl,
+      show (mirNObs ⟨.distance, 0, 7, 8, 0, 5⟩).kind = Kind.distance from rfl, Kind.lin, hd', distance_eq _ _ hc2]
+    exact ⟨_, rfl⟩
+  obtain ⟨r, hr⟩ := hp
+  obtain ⟨r', hr'⟩ := hp'
+  have hz : (fun i : Fin C06PL.lowObs.length => r.rhs.getD i.val 0) = 0 :=
+    pass_rhs_vec_zero exNet fuel C06PL.lowObs _ r C06PL.lowObs_exact hr
+  refine ⟨fuel, fuel', r, r', hr, hr', ?_, ?_, ?_⟩
+  · intro ob hob
+    rw [e] at hob
+    simp only [List.mem_cons, List.not_mem_nil, or_false] at hob
+    rcases hob with rfl | rfl
+    · exact hc0
+    · exact hc
+  · intro i _
+    have h0 : r.rhs.getD i.val 0 = 0 := congrFun hz i
+    rw [h0]; unfold HALF; norm_num
+  · rw [hz]
+    exact zero_isLSSolution _ _ _
+
+/-- `C07_mirror_weight_block`, `C07_flip_is_generated`: a `<vectors>`-like cluster `(dx, dy)` with `cov(dx, dy) = 3`
+    (full 2×2 matrix `[[4, 3], [3, 9]]`): well formed, as many observations as rows; the mirrored cluster carries
+    `cov(dx, dy) = −3`, and so do the hand model and the regenerated loop nest -/
+example : (⟨2, 1, #[4, 3, 9]⟩ : Cov.CovMat ℚ).WF ∧
+    (Gen.YSign.flipCov [false, true] (⟨2, 1, #[4, 3, 9]⟩ : Cov.CovMat ℚ)).get 1 2 = -3 ∧
+    (Gen.YSign.flipCov [false, true] (⟨2, 1, #[4, 3, 9]⟩ : Cov.CovMat ℚ)).get 2 2 = 9 ∧
+    Input.flipCov [(⟨.xdiff, 1⟩ : Input.NetObs ℚ), ⟨.ydiff, 2⟩] 2
+      (fun a b => (⟨2, 1, #[4, 3, 9]⟩ : Cov.CovMat ℚ).get (a + 1) (b + 1)) 0 1 = -3 := by
+  refine ⟨⟨by decide, by decide⟩, by decide +kernel, by decide +kernel, by decide +kernel⟩
+
+/-- `C07_xnorth_mirrored`: base description `ne`, left-handed angles (consistent, `xNorthAngle = 0`); `nw` with
+    left-handed angles is inconsistent with the same `xNorthAngle`; `en` / left-handed has 300 gon, its mirror
+    `es` / right-handed 100 gon -/
+example : Gen.XNorth.consistent .NE false = true ∧ Gen.XNorth.consistent .NW false = false ∧
+    Gen.XNorth.xNorthGon .NE false = 0 ∧ Gen.XNorth.xNorthGon .NW false = 0 ∧
+    Gen.XNorth.xNorthGon .EN false = 300 ∧ Gen.XNorth.xNorthGon (flipY .EN) true = 100 := by decide
+
+/-- `C07_rename_assembled`: a renaming that is not the identity (every identity moved by 10) is injective, and the
+    two-row witness pass of `Props/C07.lean` (a direction and a distance) with the zero solution of its exact
+    right-hand sides is a pass it applies to -/
+example : Function.Injective (fun u : Unk => (⟨u.id + 10, u.c⟩ : Unk)) ∧
+    (fun u : Unk => (⟨u.id + 10, u.c⟩ : Unk)) ⟨0, .x⟩ ≠ ⟨0, .x⟩ := by
+  refine ⟨fun a b h => ?_, by simp⟩
+  obtain ⟨ia, ca⟩ := a
+  obtain ⟨ib, cb⟩ := b
+  simp only [Unk.mk.injEq] at h
+  obtain ⟨h1, h2⟩ := h
+  have : ia = ib := by omega
+  rw [this, h2]
+
 end Gama.Props.C07Mirror
